@@ -181,9 +181,21 @@ class Check:
         self.required = list(required)
         path = os.path.join(LEAN, *lean_module.split('.')) + '.lean'
         src = strip_lean_comments(open(path).read())
-        names = re.findall(r'^\s*(?:private\s+)?theorem\s+([A-Za-z_][\w.\']*)', src, re.M)
-        ns = re.findall(r'^namespace\s+(\S+)', src, re.M)
-        prefix = (ns[0] + '.') if ns else ''
+        names, full_names = [], {}
+        stack = []
+        for line in src.split('\n'):
+            mm = re.match(r'^namespace\s+(\S+)', line)
+            if mm:
+                stack.append(mm.group(1))
+                continue
+            mm = re.match(r'^end\s+(\S+)', line)
+            if mm and stack and stack[-1] == mm.group(1):
+                stack.pop()
+                continue
+            mm = re.match(r'^\s*(?:private\s+)?theorem\s+([A-Za-z_][\w.\']*)', line)
+            if mm:
+                names.append(mm.group(1))
+                full_names[mm.group(1)] = '.'.join(stack + [mm.group(1)])
         missing = [r for r in required if r not in names]
         for m in missing:
             self.broken.append(('theorem', m, 'required theorem is missing from ' + lean_module))
@@ -203,7 +215,7 @@ class Check:
         with open(af, 'w') as f:
             f.write(f'import {lean_module}\n')
             for nme in names:
-                f.write(f'#print axioms {prefix}{nme}\n')
+                f.write(f'#print axioms {full_names[nme]}\n')
         rc, out = sh(['lake', 'env', 'lean', af], cwd=LEAN)
         if rc != 0:
             self.broken.append(('audit', lean_module, tail_errors(out)))
@@ -215,7 +227,7 @@ class Check:
             ax = [] if m.group(3) is None else [a.strip() for a in m.group(3).replace('\n', ' ').split(',') if a.strip()]
             axioms[nm] = ax
         for nme in names:
-            full = prefix + nme
+            full = full_names[nme]
             if full not in axioms:
                 self.broken.append(('audit', nme, 'no #print axioms output'))
                 continue
